@@ -447,29 +447,34 @@ def r4_index_parsing(R) -> None:
     q = f'{P}.parse_terms.<locals>.process_term_match'
     tm = TermMatch(R)
     f = tm.f
-    defs = f.vdefs(tm.idx)
+    lv = tm.index_leaves()
     ok0 = False
-    for d in defs:
-        if d.op is None and is_const(d.value, 0) and not isinstance(d.value.value, bool):
-            if tm.raw_is_none(tm.xfacts(d)):
-                ok0 = True
+    ints = []
+    for (facts, v) in lv:
+        fx = [(tm.norm_raw(text(a_)), tr) for (a_, tr) in facts]
+        if is_const(v, 0) and not isinstance(v.value, bool) and ('<INDEX> is None', True) in fx:
+            ok0 = True
+        if isinstance(v, ast.Constant) and v.value not in (0, None):
+            R.violation(q, 'implicit-index-value:' + text(v), f'the index can be the constant `{text(v)}`: constant index other than 0', where=f.fi.where)
+        if isinstance(v, ast.UnaryOp) and isinstance(v.operand, ast.Constant) and isinstance(v.operand.value, (int, float)) and v.operand.value != 0:
+            R.violation(q, 'implicit-index-value:' + text(v), f'the index can be the constant `{text(v)}`: constant index other than 0', where=f.fi.where)
+        if is_call(v, 'int'):
+            ints.append(v)
     R.check(ok0, q, 'implicit-index', 'a term without an index denotes the current period (index 0)',
             'no `index = 0` under `<INDEX group> is None`', where=f.fi.where)
-    for d in defs:
-        v = d.value
-        if d.op is None and isinstance(v, ast.Constant) and v.value not in (0, None):
-            R.violation(q, 'implicit-index-value:' + text(d.node.ast), f'`{text(d.node.ast)}`: constant index other than 0', where=f.where(d.node))
-        if d.op is None and isinstance(v, ast.UnaryOp) and isinstance(v.operand, ast.Constant) and isinstance(v.operand.value, (int, float)) and v.operand.value != 0:
-            R.violation(q, 'implicit-index-value:' + text(d.node.ast), f'`{text(d.node.ast)}`: constant index other than 0', where=f.where(d.node))
-    ints = [d for d in defs if d.op is None and is_call(d.value, 'int')]
     if R.require(q, len(ints), 'index = int(<INDEX group>)', fi=f.fi, pred=lambda x: is_call(x, 'int')):
-        for d in ints:
-            arg = d.value.args[0] if d.value.args else None
-            whole = arg is not None and len(d.value.args) == 1 and not d.value.keywords and tm.raw_kind(d.node.id, arg) == 'whole'
-            R.check(whole, q, 'int-of-whole-group:' + text(d.value), 'the numeric index is int() of the whole INDEX group',
-                    f'`{text(d.value)}` does not convert the whole INDEX group', where=f.where(d.node))
+        for v in ints:
+            whole = len(v.args) == 1 and not v.keywords and tm.norm_raw(text(v.args[0])) == '<INDEX>'
+            R.check(whole, q, 'int-of-whole-group:' + text(v)[:60], 'the numeric index is int() of the whole INDEX group',
+                    f'`{text(v)[:70]}` does not convert the whole INDEX group', where=f.fi.where)
     # the only rejection of a numeric index is int()'s own ValueError: anything int() accepts ([+1], [ -2 ]) is an index
-    for r in f.raises('ParserError'):
+    hosts = [f]
+    for nm_, (h_, _rv) in f._pure_helpers().items():
+        if any(is_call(x, nm_) for x in ast.walk(f.fi.node)):
+            hq = [q_ for q_, fi_ in R.repo.functions.items() if fi_.node is h_]
+            if hq:
+                hosts.append(Fn(R, hq[0]))
+    for (f, r) in [(h_, r_) for h_ in hosts for r_ in h_.raises('ParserError')]:
         par_ok = False
         for h in [n for n in f.cfg.nodes if n.kind == 'except']:
             if any(x is r.ast for x in ast.walk(h.ast)) and h.ast.type is not None and text(h.ast.type) == 'ValueError':
@@ -616,14 +621,21 @@ def r6_order(R) -> None:
         for c in bad:
             R.violation(q, 'reorder:' + text(c)[:60], f'`{text(c)[:70]}` reorders the symbol/equation flow (Gauss-Seidel order = symbol-list order)',
                         where=f'{fi.module.relpath}:{c.lineno}')
-    # the comprehension that generates the equations iterates `symbols` directly
+    # the block of equations is generated by one pass over `symbols`, in order (read on the gated value of the
+    # `equations` field of the class template)
+    from fsa.gated import SymExec, canon
+    from rules.c03 import _stmt_of, _template_call
     fi = R.repo.func(f'{P}.build_model_definition')
-    ok = False
-    for n in ast.walk(fi.node):
-        if isinstance(n, ast.Assign) and text(n.targets[0]) == 'expressions' and isinstance(n.value, ast.ListComp):
-            g = n.value.generators[0]
-            ok = isinstance(g.iter, ast.Name) and g.iter.id == 'symbols' and len(n.value.generators) == 1
-    R.check(ok, fi.qualname, 'expressions-iter', 'equations are generated in symbol-list order', '`expressions` is not a comprehension over `symbols`', where=fi.where)
+    se = SymExec(fi.node, inline_helpers=False)
+    call = _template_call(fi, ['endogenous', 'exogenous', 'parameters', 'errors', 'lags', 'leads', 'equations'])
+    eqv = canon(se.value(_stmt_of(fi.node, se, call), [k.value for k in call.keywords if k.arg == 'equations'][0]))
+    comps = [x for x in ast.walk(eqv) if isinstance(x, (ast.ListComp, ast.GeneratorExp)) and any(is_call(y, 'converter') or (isinstance(y, ast.Call) and isinstance(y.func, ast.IfExp))
+                                                                                                     for y in [x.elt])]
+    sym_param = (fi.params() + ['symbols'])[0]
+    if not comps:
+        raise Unknown(f'{fi.qualname}: the converted expressions are not a comprehension in `{text(eqv)[:80]}`')
+    ok = all(len(c.generators) == 1 and isinstance(c.generators[0].iter, ast.Name) and c.generators[0].iter.id == sym_param for c in comps)
+    R.check(ok, fi.qualname, 'expressions-iter', 'equations are generated in symbol-list order', 'the converted expressions are not produced by one pass over `symbols`', where=fi.where)
 
 
 def run(R) -> None:
